@@ -6,7 +6,9 @@ import Operon.Model.Tmpl
   env <extraWordCps> <extraSpaceCps> <markerPre> <markerSuf> (<set>=<filterName>,…)* (@render=<name>,… @translate=<name>,…)
                      (@render/@translate: the context names that the call protocol of synthesize/translate rejects with
                       TypeError because they name a positionally filled parameter — probed on the tree under test)
-  ctx (<name>=<kind><truthy>,<text>[,L<item>;<item>…])*  item = <kind><text>[/<key>~<value>]*
+  ctx (<name>=<kind><truthy>,<text>[,L<item>;<item>…])* [!poison]  item = <kind><text>[/<key>~<value>]*
+                     (kinds l t L T are iterated; `!poison`: a value's str()/bool() raises, renders under this context
+                      answer `poison` - the real code is run but not judged, the renders that follow are)
   fenv (<set>:<filter>:<var>:o:<result> | <set>:<filter>:<var>:r:<class>)*
   new <id> <strict> <set> (<key>:<mrnaName>:<sequence>)*     (constructor templates= mapping: the KEY registers)
   tmpl <id> <name> <sequence>                               (create_template)
@@ -34,6 +36,8 @@ structure DSt where
   insts : List (String × Inst) := []
   ctx : Ctx := []
   fenv : List ((String × Str × Str) × FRes) := []
+  /-- the context holds a value whose `str()` / `bool()` raises: renders under it are search-only lines -/
+  poison : Bool := false
 
 def mkCfg (st : DSt) (i : Inst) : Cfg :=
   { isWord := fun c => asciiWord c || st.words.contains c
@@ -64,7 +68,7 @@ def parseEntry (s : String) : Option (Str × Val) :=
     | kt :: x :: more =>
       let kind := (kt.take 1).toString
       let truthy := (kt.drop 1).toString = "1"
-      if kind = "l" || kind = "t" then
+      if kind = "l" || kind = "t" || kind = "L" || kind = "T" then     -- list, tuple and their subclasses
         let body := ((more.headD "L").drop 1).toString
         let its := if body = "" then [] else (body.splitOn ";").map parseItem
         some (decodeCps n, ⟨decodeCps x, truthy, some its⟩)
@@ -215,7 +219,7 @@ def step (st : DSt) (toks : List String) : DSt × String :=
   | "env" :: w :: s :: p :: q :: fs =>
     ({ st with words := decodeCps w, spaces := decodeCps s, mpre := decodeCps p, msuf := decodeCps q,
                fsets := fs.filterMap parseSet }, "ok")
-  | "ctx" :: es => ({ st with ctx := es.filterMap parseEntry, fenv := [] }, "ok")
+  | "ctx" :: es => ({ st with ctx := es.filterMap parseEntry, fenv := [], poison := es.contains "!poison" }, "ok")
   | "fenv" :: es => ({ st with fenv := es.filterMap parseF }, "ok")
   | "new" :: id :: strict :: fset :: ents =>
     if st.fsets.any (fun p => p.1 == fset) then
@@ -239,15 +243,16 @@ def step (st : DSt) (toks : List String) : DSt × String :=
   | ["render", id, s] =>
     match getInst st id with
     | none => (st, "bad-op")
-    | some i => (st, callGuard st "render" fun _ => renderAll st i (decodeCps s))
+    | some i => if st.poison then (st, "poison") else (st, callGuard st "render" fun _ => renderAll st i (decodeCps s))
   | ["trobj", id, _, s] =>
     match getInst st id with
     | none => (st, "bad-op")
-    | some i => (st, callGuard st "translate" fun _ => renderAll st i (decodeCps s))
+    | some i => if st.poison then (st, "poison") else (st, callGuard st "translate" fun _ => renderAll st i (decodeCps s))
   | ["translate", id, n] =>
     match getInst st id with
     | none => (st, "bad-op")
     | some i =>
+      if st.poison then (st, "poison") else
       (st, callGuard st "translate" fun _ =>
         match lookup (decodeCps n) i.templates with
         | some t => renderAll st i t
